@@ -160,13 +160,7 @@ func verifNewNode(writeThrough bool) *verifNode {
 	wb := &verifWriteBack{exec: writeback.NewExecutor(tally.NoopScope, fs, backends)}
 	ts := tagstore.New(tagstore.Config{WriteThrough: writeThrough}, fs, backends, wb)
 	o := &verifOrigin{}
-	s := &Server{
-		stats:             tally.NoopScope,
-		backends:          backends,
-		localOriginClient: o,
-		neighbors:         verifNoNeighbors{},
-		store:             ts,
-	}
+	s := New(Config{}, tally.NoopScope, backends, "", o, verifNoNeighbors{}, ts, nil, nil, nil, nil, nil)
 	return &verifNode{server: s, origin: o, backend: be, wb: wb, store: ts}
 }
 
